@@ -102,7 +102,8 @@ theorem prepend_unfold (f : Forest) (p c : Nat) :
 /-- The far geometry. -/
 theorem prependTail_far {f : Forest} {p c : Nat} {t : HTree} {vp : Value} {Lp : List HTree} {X Y : Forest}
     {φ : HTree → HTree} (inv : f.Inv) (norm : f.Normal)
-    (F : Far f (Keep.resident c) c t p vp Lp X Y φ) (sp : SiteAt f p vp Lp) (hgc : f.get? c = some t)
+    (F : Far f (Keep.resident c) c t p vp Lp X Y φ) (sp : SiteAt f p vp Lp)
+    (hxs : ∃ φ', KidMap φ' ∧ SiteAt X p vp (Lp.map φ')) (hgc : f.get? c = some t)
     (hX : X = f ∨ textData t = none) (hpt : p ∉ handles t) (hnorm : t.value.isNormal = true)
     (hsame : ¬ ((Lp.dropWhile abn).head?).map (·.handle) = some c)
     (hocc : Dest.occupiedBy f c (.firstNormalChildOf p) = false)
@@ -146,7 +147,7 @@ theorem prependTail_far {f : Forest} {p c : Nat} {t : HTree} {vp : Value} {Lp : 
     unfold prependTail at hok' ⊢
     rw [hr2] at hok' ⊢
     simp only [Bool.false_eq_true, if_false] at hok' ⊢
-    obtain ⟨φ', hk', _, sXq⟩ := F.xsite
+    obtain ⟨φ', hk', sXq⟩ := hxs
     have hpp : X.prependPoint p = ((Lp.takeWhile abn).getLast?).map (·.handle) := by
       rw [Forest.prependPoint_of_get sXq.kids, takeWhile_abn_map hk', List.getLast?_map, Option.map_map]
       congr 1
@@ -379,7 +380,8 @@ theorem prepend_spec_far {f : Forest} {p c : Nat} (inv : f.Inv) (norm : f.Normal
     rcases Forest.root_or_ctx hgc with hroot | ⟨cx, hctx⟩
     · have hno := Forest.ctx_none_of_root nd hroot
       rw [Forest.prevSibling_of_no_ctx hno, Forest.removeConsolidate_none_left] at hok ⊢
-      exact prependTail_far inv norm (far_root hgc hno sp hpt) sp hgc (Or.inl rfl) hpt hnorm hsame hocc hok
+      exact prependTail_far inv norm (far_root hgc hno sp hpt) sp ⟨id, kidMap_id, by rw [List.map_id]; exact sp⟩
+        hgc (Or.inl rfl) hpt hnorm hsame hocc hok
     · obtain ⟨e0, vo, so⟩ := SiteAt.of_ctx nd hctx
       have hself : cx.self = t := by
         have := Forest.get?_of_ctx nd hctx
@@ -399,8 +401,8 @@ theorem prepend_spec_far {f : Forest} {p c : Nat} (inv : f.Inv) (norm : f.Normal
         cases hvp with
         | inl h => cases vp <;> simp_all [Value.isElement, Value.isText]
         | inr h => cases vp <;> simp_all [Value.isDocument, Value.isText]
-      obtain ⟨φ, F⟩ := far_kid (keep := Keep.resident k.handle) inv norm (Keep.resident_spec k.handle)
+      obtain ⟨⟨φ, F⟩, hxs⟩ := far_kid (keep := Keep.resident k.handle) inv norm (Keep.resident_spec k.handle)
         so sp hpo hpt hvq
-      exact prependTail_far inv norm F sp hgc (old_stage inv norm so).same_or_not_text hpt hnorm hsame hocc hok
+      exact prependTail_far inv norm F sp hxs hgc (old_stage inv norm so).same_or_not_text hpt hnorm hsame hocc hok
 
 end XotModel
